@@ -23,12 +23,20 @@ def build_cases(chk):
         by = collections.defaultdict(list)
         for c in b:
             k = c.get('kill')
-            by[(c['kind'], str(c['outcome']) if not k else '-', k['phase'] if k else None, k['sig'] if k else None)].append(c)
+            how = c.get('raise_how') or 'plain'
+            okey = '-' if k else (str(c['outcome']) if how == 'plain' else 'how:' + how)
+            by[(c['kind'], okey, k['phase'] if k else None, k['sig'] if k else None)].append(c)
         cases = []
         for key in sorted(by, key=str):
             grp = by[key]
             cases += rng.sample(grp, min(len(grp), 3 if key[2] else 2))
-        n = 120
+        # every way of handing the arguments over (positional, a kwargs dict the caller keeps, a temporary one, both)
+        # meets every kill class: rotate over the killed cases of the slice
+        j = rng.randrange(4)
+        for i, c in enumerate(cases):
+            if c.get('kill'):
+                cases[i] = dict(c, argform=scen_proc.ARGFORMS[(i + j) % 4])
+        n = 110
     else:
         cases = list(b)
         n = 6000
@@ -85,7 +93,9 @@ def run(chk):
         'cases = a seeded slice (quick) / all (thorough) of the boundary product {outcome class} x {kill phase before/'
         'during/between/after} x {signal 9, 15, 10, 1} x {first accessor} for Process and Thread, plus random cases '
         '(outcome incl. value/exception/exit-code universes, kill, accessor order, early non-blocking asks, first accessor already '
-        'blocked when the signal arrives), plus signals at random moments (anchored at start() or at the target\'s start; the '
+        'blocked when the signal arrives, arguments handed over positionally / in a kwargs dict the caller keeps / in a temporary '
+        'dict, targets failing by plain raise / raise inside except / raise-from / an exception out of an inner mpservice '
+        'Thread or Process), plus signals at random moments (anchored at start() or at the target\'s start; the '
         'answers must be the table row of some phase), plus kills of a child that is logging heavily or still flushing its '
         'logs after it sent its result; each case runs the REAL mpservice Process/Thread in a fresh interpreter in its own '
         'session; non-trivial = the worker was started and every accessor call in the case\'s order returned or was '
